@@ -351,3 +351,5 @@ def run_case(case, res):
         run_handover(case, res)
     else:
         run_interp(case, res)
+
+RULE += (" " + 'Mass-lumped twins and hand-over sequences; interpolation size paths in 3 and 4 dimensions; d = 3 twins in the quick tier.')
